@@ -204,10 +204,46 @@ def wrapped(c, z, L, what):
     return z
 
 
-def run_gen_gals(c, H, P, tracers, rsd, origin_kind, enable_ranks, Nthread, want_AB=True, want_shear=True):
-    """Runs the real gen_gals and returns everything the oracles need."""
+def optional_defaults():
+    """{tracer: {key: default}} for every ``X_HOD.get('key', default)`` in the CURRENT source of gen_gals; a default is a number,
+    ('key', other_key) when it is the tracer's own effective value of another key, or ('param', name)"""
+    import ast
+    import inspect
+    import textwrap
+    f = getattr(gh.gen_gals, 'py_func', gh.gen_gals)
+    out = {}
+    for n in ast.walk(ast.parse(textwrap.dedent(inspect.getsource(f)))):
+        if (isinstance(n, ast.Call) and isinstance(n.func, ast.Attribute) and n.func.attr in ('get', 'setdefault', 'pop') and isinstance(n.func.value, ast.Name)
+                and n.func.value.id.endswith('_HOD') and len(n.args) == 2 and isinstance(n.args[0], ast.Constant)):
+            t, k, d = n.func.value.id[:-4], n.args[0].value, n.args[1]
+            if isinstance(d, ast.Constant) and isinstance(d.value, (int, float)):
+                v = float(d.value)
+            elif isinstance(d, ast.Subscript) and isinstance(d.value, ast.Name) and isinstance(d.slice, ast.Constant):
+                v = ('param', d.slice.value) if d.value.id == 'params' else ('key', d.slice.value)
+            else:
+                continue
+            out.setdefault(t, {})[k] = v
+    return out
+
+
+def run_gen_gals(c, H, P, tracers, rsd, origin_kind, enable_ranks, Nthread, want_AB=True, want_shear=True, drop_optional=False):
+    """Runs the real gen_gals and returns everything the oracles need.  ``drop_optional``: the caller's dictionaries omit every
+    key the generator reads with a default; the oracle's dictionaries carry the default values instead."""
     c.extra['abstract_products'] = True
     hd, pd, tr = build_inputs(c, H, P, tracers, want_AB, want_shear)
+    dropped = {t: [] for t in tracers}
+    if drop_optional:
+        dflt = optional_defaults()
+        for t in tracers:
+            for k, v in dflt.get(t, {}).items():
+                if k in tr[t] and not (isinstance(v, tuple) and v[0] == 'param'):
+                    dropped[t].append(k)
+        for t in tracers:
+            for k in dropped[t]:
+                v = dflt[t][k]
+                tr[t][k] = tr[t][v[1]] if isinstance(v, tuple) else v
+        if isinstance(c.extra.get('case'), dict):
+            c.extra['case']['dropped'] = {t: list(dropped[t]) for t in tracers}
     params = dict(z=0.5, velz2kms=real_in(c, 'velz2kms'), Lbox=real_in(c, 'Lbox'), Mpart=real_in(c, 'Mpart'),
                   origin=None)
     c.assume(z3.And(params['velz2kms'].e > 0, params['Lbox'].e > 0))
@@ -218,18 +254,19 @@ def run_gen_gals(c, H, P, tracers, rsd, origin_kind, enable_ranks, Nthread, want
         params['origin'] = o
     exclude_ties(c, hd, pd, tr, tracers, enable_ranks, H, P)
     rebind.NB.reset(8)
-    tr_in = {t: dict(tr[t]) for t in tracers}
+    tr_in = {t: {k: v for k, v in tr[t].items() if k not in dropped[t]} for t in tracers}
+    tr_ref = {t: dict(tr_in[t]) for t in tracers}
     par_in = dict(params)
     out = R.gen_gals(hd, pd, tr_in, par_in, Nthread, enable_ranks, rsd, False, False)
     # frame condition: the caller's tracer / parameter dictionaries come back as they went in (fits call the generator again and
     # again with the same dictionaries, changing a few entries in between: anything written into them leaks into the next call)
     def same_dict(a, b):
         return list(a) == list(b) and all((a[k] is b[k]) or (not isinstance(a[k], (Sym, real_np.ndarray)) and not isinstance(b[k], (Sym, real_np.ndarray)) and a[k] == b[k]) for k in a)
-    untouched = same_dict(par_in, params) and list(tr_in) == list(tracers) and all(same_dict(tr_in[t], tr[t]) for t in tracers)
-    changed = sorted(f'{t}.{k}' for t in tracers for k in set(tr_in[t]) ^ set(tr[t])) + sorted(f'{t}.{k}' for t in tracers for k in set(tr_in[t]) & set(tr[t])
-                                                                                              if tr_in[t][k] is not tr[t][k] and isinstance(tr[t][k], Sym))
+    untouched = same_dict(par_in, params) and list(tr_in) == list(tracers) and all(same_dict(tr_in[t], tr_ref[t]) for t in tracers)
+    changed = sorted(f'{t}.{k}' for t in tracers for k in set(tr_in[t]) ^ set(tr_ref[t])) + sorted(f'{t}.{k}' for t in tracers for k in set(tr_in[t]) & set(tr_ref[t])
+                                                                                                  if tr_in[t][k] is not tr_ref[t][k] and isinstance(tr_ref[t][k], Sym))
     c.prove(z3.BoolVal(bool(untouched)), 'gen_gals leaves the caller\'s tracer and parameter dictionaries unchanged (no state carried into the next call)',
-            key='hod:inputs-unmodified', info=dict(changed=changed[:8], tracers=list(tracers)))
+            key='hod:inputs-unmodified', info=dict(changed=changed[:8], tracers=list(tracers), dropped={t: dropped[t] for t in tracers}))
     return hd, pd, tr, params, out
 
 
@@ -433,12 +470,14 @@ pd = dict(ppos=arr('ppos', (P, 3)), pvel=arr('pvel', (P, 3)), phvel=arr('phvel',
           pinds=arr('pinds', (P,), np.int64))
 for k in ('pranks', 'pranksv', 'pranksp', 'pranksr', 'pranksc'): pd[k] = arr(k, (P,))
 tr = {{t: {{k.split('.', 1)[1]: fl(v) for k, v in m.items() if k.startswith(t + '.')}} for t in tracers}}
+DROPPED = case.get('dropped') or {{}}
+tr_call = {{t: {{k: v for k, v in d.items() if k not in DROPPED.get(t, [])}} for t, d in tr.items()}}      # what the caller passes (optional keys left out)
 params = dict(z=0.5, velz2kms=fl(m.get('velz2kms', 1)), Lbox=fl(m.get('Lbox', 1)), Mpart=fl(m.get('Mpart', 1)), origin=None)
 if case.get('observer') == 'origin': params['origin'] = np.array([fl(m.get(f'origin[{{j}}]', 0)) for j in range(3)])
 rsd, ranks = case['rsd'], case['ranks']
 # NOTE 10**x inside gen_sats uses real pow; satellite widths go through the stand-ins, which match on their other arguments
 def run(nt):
-    return G['gen_gals']({{k: v.copy() for k, v in hd.items()}}, {{k: v.copy() for k, v in pd.items()}}, {{t: dict(d) for t, d in tr.items()}}, params, nt, ranks, rsd, False, False)
+    return G['gen_gals']({{k: v.copy() for k, v in hd.items()}}, {{k: v.copy() for k, v in pd.items()}}, {{t: dict(d) for t, d in tr_call.items()}}, params, nt, ranks, rsd, False, False)
 bad = []
 try:
     out = run(case['Nthread'])
@@ -447,12 +486,12 @@ except Exception as ex:
     bad.append(f'gen_gals raised {{type(ex).__name__}}: {{ex}}'); out = None
 # frame condition: the caller's dictionaries come back unchanged
 try:
-    tr_in = {{t: dict(d) for t, d in tr.items()}}; par_in = dict(params)
+    tr_in = {{t: dict(d) for t, d in tr_call.items()}}; par_in = dict(params)
     G['gen_gals']({{k: v.copy() for k, v in hd.items()}}, {{k: v.copy() for k, v in pd.items()}}, tr_in, par_in, case['Nthread'], ranks, rsd, False, False)
-    for t in tr:
-        if tr_in[t] != tr[t]:
-            bad.append(f'gen_gals changed the caller\'s {{t}} dictionary: added/changed keys {{sorted(k for k in tr_in[t] if k not in tr[t] or tr_in[t][k] != tr[t][k])}}')
-    if set(par_in) != set(params): bad.append(f'gen_gals changed the caller\'s params dictionary: {{sorted(set(par_in) ^ set(params))}}')
+    for t in tr_call:
+        if tr_in[t] != tr_call[t]:
+            bad.append(f'gen_gals changed the {{t}} dictionary of its caller: added/changed keys {{sorted(k for k in tr_in[t] if k not in tr_call[t] or tr_in[t][k] != tr_call[t][k])}}')
+    if set(par_in) != set(params): bad.append(f'gen_gals changed the params dictionary of its caller: {{sorted(set(par_in) ^ set(params))}}')
 except Exception as ex:
     pass
 ORDER = ['LRG', 'ELG', 'QSO']
